@@ -89,9 +89,9 @@ pub open spec fn opt_ccv(o: Option<CompletionContext>) -> Option<CtxV> {
 
 // ---- one function definition ---------------------------------------------------------------------------------
 /// get_func_context: the context ONE (sync or async) function definition gives the cursor line.
-///   None   the line is outside [line(range.start), line(range.end)]  (the range of a decorated function starts at
-///          the `def` keyword in this parser version; decorators are handled by check_decorator_context), or the
-///          function is neither `test_*` nor fixture-decorated
+///   None   the line is outside [line(range.start), line(range.end)] of the definition's AST range (whatever the
+///          parser makes that range cover -- with or without the decorator lines: not modelled), or the function is
+///          neither `test_*` nor fixture-decorated
 ///   Some   signature iff line <= sig_end_line, else body; name; line of the `def`; is_fixture; declared = names of
 ///          ALL parameters; scope = Some(scope of the fixture) inside a fixture, None inside a test
 pub open spec fn spec_func_ctx(name: Identifier, decos: Seq<Expr>, args: CArguments, returns: Option<Box<Expr>>,
@@ -305,5 +305,47 @@ pub open spec fn spec_completion_ctx(content: Option<Seq<char>>, line: u32) -> O
             } else { None };
             opt_or(ast_ctx, text_ctx(c, tl))
         }
+    }
+}
+
+// ---- is_inside_function / find_enclosing_function (`#[allow(dead_code)]`: used by the test-suite only) ---------
+/// (name, is_fixture, declared parameters)
+pub type EnclV = (Seq<char>, bool, Seq<Seq<char>>);
+pub open spec fn encl_v(t: (String, bool, Vec<String>)) -> EnclV { (t.0@, t.1, str_views(t.2@)) }
+pub open spec fn opt_encl_v(o: Option<(String, bool, Vec<String>)>) -> Option<EnclV> {
+    match o { Some(t) => Some(encl_v(t)), None => None }
+}
+/// AS THE CODE IS WRITTEN (stated, not hidden): unlike get_func_context this helper lists the REGULAR parameters
+/// only (`args.args`: no positional-only, no keyword-only ones) and does NOT look into class bodies (methods).
+pub open spec fn regular_names(a: CArguments) -> Seq<Seq<char>> { a.args@.map_values(pname_fn()) }
+pub open spec fn encl_of(name: Identifier, decos: Seq<Expr>, args: CArguments, range: TextRange, tl: usize, li: Seq<usize>) -> Option<EnclV> {
+    if in_lines(range, tl, li) && (is_test_name(idv(&name)) || has_fixture_decorator(decos)) {
+        Some((idv(&name), has_fixture_decorator(decos), regular_names(args)))
+    } else { None }
+}
+pub open spec fn encl_stmt(s: Stmt, tl: usize, li: Seq<usize>) -> Option<EnclV> {
+    match s {
+        Stmt::FunctionDef(f) => encl_of(f.name, f.decorator_list@, *f.args, f.range, tl, li),
+        Stmt::AsyncFunctionDef(f) => encl_of(f.name, f.decorator_list@, *f.args, f.range, tl, li),
+        _ => None,
+    }
+}
+pub open spec fn encl_from(b: Seq<Stmt>, k: int, tl: usize, li: Seq<usize>) -> Option<EnclV>
+    decreases b.len() - k
+{
+    if k < 0 || k >= b.len() { None } else { opt_or(encl_stmt(b[k], tl, li), encl_from(b, k + 1, tl, li)) }
+}
+pub open spec fn spec_enclosing(stmts: Seq<Stmt>, content: Seq<char>, tl: usize) -> Option<EnclV> {
+    encl_from(stmts, 0, tl, src_line_index(content))
+}
+pub open spec fn spec_is_inside(content: Option<Seq<char>>, line: u32) -> Option<EnclV> {
+    match content {
+        None => None,
+        Some(c) => if parse_ok(c) {
+            match ast_of(c) {
+                rustpython_parser::ast::Mod::Module(m) => spec_enclosing(m.body@, c, (line as usize + 1) as usize),
+                _ => None,
+            }
+        } else { None },
     }
 }
